@@ -19,8 +19,10 @@ package rm
 
 import (
 	"fmt"
+	"strings"
 	"sync"
 
+	gettysession "github.com/apache/dubbo-getty"
 	"github.com/pkg/errors"
 
 	"seata.apache.org/seata-go/pkg/protocol/message"
@@ -39,6 +41,8 @@ func GetRMRemotingInstance() *RMRemoting {
 	// (no unsynchronised nil check in front of the Once: that read races with the initialisation)
 	onceGettyRemoting.Do(func() {
 		rmRemoting = &RMRemoting{}
+		// a connection that replaces a lost one knows nothing about our resources yet
+		getty.RegisterSessionOpenHook(rmRemoting.registerResourcesOnSession)
 	})
 	return rmRemoting
 }
@@ -136,6 +140,39 @@ func (r *RMRemoting) RegisterResource(resource Resource) error {
 	}
 
 	return nil
+}
+
+// registerResourcesOnSession announces every resource of every resource manager on a newly opened
+// session, so that the coordinator can route phase-two requests for them to this connection
+func (r *RMRemoting) registerResourcesOnSession(session gettysession.Session) {
+	GetRmCacheInstance().resourceManagerMap.Range(func(_, manager interface{}) bool {
+		resourceManager, ok := manager.(ResourceManager)
+		if !ok {
+			return true
+		}
+		var ids []string
+		resourceManager.GetCachedResources().Range(func(_, res interface{}) bool {
+			if resource, ok := res.(Resource); ok {
+				ids = append(ids, resource.GetResourceId())
+			}
+			return true
+		})
+		if len(ids) == 0 {
+			return true
+		}
+		req := message.RegisterRMRequest{
+			AbstractIdentifyRequest: message.AbstractIdentifyRequest{
+				Version:                 "1.5.2",
+				ApplicationId:           rmConfig.ApplicationID,
+				TransactionServiceGroup: rmConfig.TxServiceGroup,
+			},
+			ResourceIds: strings.Join(ids, ","),
+		}
+		if err := getty.SendOnewayOnSession(session, req); err != nil {
+			log.Errorf("register resources %v on session %s: %v", ids, session.Stat(), err)
+		}
+		return true
+	})
 }
 
 func isQueryLockSuccess(response interface{}) bool {
